@@ -26,6 +26,13 @@
 //!   tensor_chain.distributed_tx.coordinator/record_vote_phase3_overwrites_decided_phase
 //!                                            (regression oracle of f07ecb9a, two real threads) phase 3 of record_vote answered Prepared for a tx that
 //!                                            another thread had moved to Aborting between the two critical sections
+//!   tensor_chain.distributed_tx.coordinator/wal_restart_restores_abort_decided_tx
+//!                                            (WAL-backed coordinator, `wrestart`) recover_from_wal() put a transaction whose ABORT was
+//!                                            announced before the crash into `pending` in a phase other than Aborting
+//!   tensor_chain.distributed_tx.coordinator/wal_restart_commits_abort_decided_tx | wal_restart_aborts_commit_decided_tx
+//!                                            after crash + recover_from_wal() + recover(), get_pending_decisions contradicts a decision
+//!                                            announced before the crash
+//!   tensor_chain.distributed_tx.coordinator/wal_restart_restores_commit_decided_tx_as_aborting
 //! After a model-vs-implementation disagreement, and after a first monitor hit, the rest of the script
 //! still runs on the REAL objects with every monitor armed (each class is reported once per script).
 //!
@@ -35,6 +42,18 @@
 //! the stream `late-duplicates` draws random schedules over 1–2 keys in which PREPARE/COMMIT/ABORT
 //! messages of transactions already FINISHED on the addressed shard are re-delivered late, between
 //! the steps of later transactions on the same keys and after their commits.
+//!
+//! WAL.  In the streams `directed-wal`, `wal-restart-schedules` and `wal-observations` (`Setup::wal`) the coordinator is built
+//! `.with_wal(TxWal::open(<tmpfs file>))`; the records `TxWal::replay` reads back are part of the dump compared after every
+//! event (`dumpw`, Lean `Wal.lean`: what each coordinator call appends), and `wrestart` is the event "the coordinator process
+//! crashes; a new process opens the same log, recover_from_wal() + recover(), every pending decision is re-sent".  All
+//! monitors stay armed across it; the model tags a `wrestart` `!outside` only when its log disagrees with an announced
+//! decision (on the code as it is: after the unlogged timeout abort of a PREPARED entry — replayed as an observation).
+//! `directed_wal()` (run first) starts from the shortest history in which "restore only what the LOG says is Prepared" is the
+//! only thing between a restart and a changed decision (timeout fires before the last vote; the late YES is rejected but
+//! logged); the random stream biases towards that shape (`wal.restart.after_abort_of_tx_with_a_logged_yes_from_every_participant`).
+//! A restored entry is a `DistributedTransaction::new` (deadline 5000 ms after the restart): on the virtual clock its
+//! `begun_at` is the restart and its limit 0 units; every virtual-clock reload of the coordinator re-opens the log.
 //!
 //! Time.  The code reads the wall clock.  Coordinator timeouts are driven on a virtual clock
 //! (1 unit = 1 h): before every sweep the coordinator is round-tripped through its public
@@ -53,6 +72,7 @@ use tensor_chain::distributed_tx::{
     CoordinatorState, DistributedTransaction, DistributedTxConfig, DistributedTxCoordinator, ParticipantState, PrepareRequest,
     PrepareVote, SerializableLockState, TxParticipant, TxPhase, UndoEntry, VoteRecordError,
 };
+use tensor_chain::tx_wal::{PrepareVoteKind, TxWal, TxWalEntry};
 use tensor_store::{ScalarValue, SparseVector, TensorData, TensorStore, TensorValue};
 
 const UNIT: u64 = 3_600_000;
@@ -320,7 +340,10 @@ struct TxInfo {
     shards: Vec<usize>,
     ops: Vec<Vec<Op>>,
     embs: Vec<u64>,
+    /// virtual time the pending entry's `started_at` stands for (the `begin`; after a WAL restart: the restart)
     begun_at: u64,
+    /// its timeout in clock units (`t_units`; 0 for an entry restored from the WAL: `timeout_ms` = 5000 < 1 unit)
+    limit: u64,
 }
 impl TxInfo {
     fn pos(&self, sh: usize) -> Option<usize> {
@@ -376,14 +399,35 @@ struct Real {
     ckpt_shown: Option<String>,
     /// the store the virtual-clock reloads go through (one per system, reused)
     scratch: Option<TensorStore>,
+    /// WAL-backed coordinator (Wal.lean): the directory and the path of its `TxWal` file
+    wal: Option<(tempfile::TempDir, std::path::PathBuf)>,
+    /// (tx, shard) of every YES vote handed to `record_vote` (what the WAL holds as `PrepareVote::Yes`)
+    yes_handed: HashSet<(usize, usize)>,
 }
 
 fn mk_coord(cfg: &DistributedTxConfig) -> DistributedTxCoordinator {
     DistributedTxCoordinator::new(ConsensusManager::new(ConsensusConfig::default()), cfg.clone())
 }
+/// a coordinator process on the WAL file at `path` (opened for append; an existing log is kept)
+fn attach_wal(c: DistributedTxCoordinator, path: &std::path::Path) -> DistributedTxCoordinator {
+    c.with_wal(TxWal::open(path).expect("open the coordinator's WAL"))
+}
+fn wal_dir() -> tempfile::TempDir {
+    if std::path::Path::new("/dev/shm").is_dir() {
+        tempfile::tempdir_in("/dev/shm").unwrap()
+    } else {
+        tempfile::tempdir().unwrap()
+    }
+}
+/// forged lock handles live above `lock_handle_high_water_threshold()`: `recover_from_wal` ignores such handles
+/// when it moves the process-wide handle counter past the logged ones, so real handles never run into them
+const FORGED_BASE: u64 = u64::MAX - (1 << 40);
 
 impl Real {
-    fn new(n: usize, t_units: u64, maxc: usize, wallclock: bool, age_parts: bool) -> Real {
+    fn for_setup(setup: &Setup) -> Real {
+        Real::new(setup.n, setup.t_units, setup.maxc, setup.wallclock, setup.age_parts, setup.wal)
+    }
+    fn new(n: usize, t_units: u64, maxc: usize, wallclock: bool, age_parts: bool, with_wal: bool) -> Real {
         let cfg = DistributedTxConfig {
             prepare_timeout_ms: if wallclock { 1 } else { t_units * UNIT + UNIT / 2 },
             max_concurrent: maxc,
@@ -391,8 +435,16 @@ impl Real {
         };
         let stores: Vec<TensorStore> = (0..n).map(|_| TensorStore::new()).collect();
         let parts = stores.iter().map(|s| TxParticipant::new(s.clone())).collect();
+        let wal = with_wal.then(|| {
+            let d = wal_dir();
+            let p = d.path().join("tx.wal");
+            (d, p)
+        });
         Real {
-            coord: mk_coord(&cfg),
+            coord: match &wal {
+                Some((_, p)) => attach_wal(mk_coord(&cfg), p),
+                None => mk_coord(&cfg),
+            },
             cfg,
             stores,
             parts,
@@ -419,7 +471,47 @@ impl Real {
             ckpt_store: None, // created by the first `ckpt` (a TensorStore is not cheap to build)
             ckpt_shown: None,
             scratch: None,
+            wal,
+            yes_handed: HashSet::new(),
         }
+    }
+    /// canonical text of the coordinator's log as `TxWal::replay` reads it back (`showWalEntry` of the driver; the
+    /// `LockRelease` records of one commit come in `HashMap` order: each run is sorted by handle)
+    fn show_wal(&self) -> String {
+        let Some((_, path)) = &self.wal else { return String::new() };
+        let entries = TxWal::open(path).and_then(|w| w.replay()).expect("the coordinator's WAL replays");
+        let mut out: Vec<String> = vec![];
+        let mut run: Vec<(u64, String)> = vec![];
+        for e in &entries {
+            if let TxWalEntry::LockRelease { tx_id, lock_handle } = e {
+                let h = self.hlookup(*lock_handle);
+                run.push((h, format!("L{}.{}", self.dense(*tx_id), h)));
+                continue;
+            }
+            run.sort();
+            out.extend(run.drain(..).map(|x| x.1));
+            out.push(match e {
+                TxWalEntry::TxBegin { tx_id, participants } => {
+                    format!("B{}:{}", self.dense(*tx_id), dotted(&participants.iter().map(|&p| p as u64).collect::<Vec<_>>()))
+                },
+                TxWalEntry::PrepareVote { tx_id, shard, vote } => format!(
+                    "V{}.{}.{}",
+                    self.dense(*tx_id),
+                    shard,
+                    match vote {
+                        PrepareVoteKind::Yes { lock_handle } => format!("y{}", self.hlookup(*lock_handle)),
+                        _ => "n".to_string(),
+                    }
+                ),
+                TxWalEntry::PhaseChange { tx_id, to, .. } => format!("P{}.{}", self.dense(*tx_id), format!("{to:?}").to_lowercase()),
+                TxWalEntry::TxComplete { tx_id, .. } => format!("X{}", self.dense(*tx_id)),
+                TxWalEntry::AllLocksReleased { tx_id } => format!("R{}", self.dense(*tx_id)),
+                other => format!("?{}", format!("{other:?}").chars().take_while(|c| c.is_alphanumeric()).collect::<String>()),
+            });
+        }
+        run.sort();
+        out.extend(run.drain(..).map(|x| x.1));
+        out.join(" ")
     }
     /// key -> (dense tx, real handle) of the shard's lock table
     fn holders(&self, sh: usize) -> BTreeMap<u64, (u64, u64)> {
@@ -633,8 +725,9 @@ impl Real {
             })
             .collect();
         let vc: Vec<String> = self.cast.iter().map(|(t, s, y)| format!("{t}/{s}/{}", if *y { "y" } else { "c" })).collect();
+        let w = if self.wal.is_some() { format!("|W:{}", self.show_wal()) } else { String::new() };
         format!(
-            "C:{}|PA:0|{}|M:{}|H:{}|D:{}|AP:{}|DI:{}|R:{}|AO:{}|VC:{}|K:{}",
+            "C:{}|PA:0|{}|M:{}|H:{}|D:{}|AP:{}|DI:{}|R:{}|AO:{}|VC:{}|K:{}{w}",
             c,
             ps.join("|"),
             self.pool.len(),
@@ -704,17 +797,22 @@ impl Real {
         let mut data = TensorData::new();
         data.set("state", TensorValue::Scalar(ScalarValue::Bytes(bytes)));
         scratch.put("_dtx:coordinator:n0:state", data).unwrap();
-        self.coord = DistributedTxCoordinator::load_from_store(
+        let c = DistributedTxCoordinator::load_from_store(
             "n0",
             scratch,
             ConsensusManager::new(ConsensusConfig::default()),
             self.cfg.clone(),
         )
         .expect("coordinator state loads");
+        // `with_state` builds the coordinator without a WAL: the restarted process re-opens its log
+        self.coord = match &self.wal {
+            Some((_, p)) => attach_wal(c, p),
+            None => c,
+        };
     }
     /// has the transaction's deadline passed on the virtual clock?
     fn past_deadline(&self, tx: usize) -> bool {
-        self.txs.get(tx).is_some_and(|t| self.clock - t.begun_at > self.t_units)
+        self.txs.get(tx).is_some_and(|t| self.clock - t.begun_at > t.limit)
     }
     /// `get_pending_decisions`, dense ids, sorted
     fn pending_decisions(&self) -> Vec<(u64, TxPhase)> {
@@ -752,6 +850,9 @@ impl Real {
 
     fn record_vote(&mut self, tx: usize, sh: usize, vote: PrepareVote) -> String {
         let real = self.real_tx(tx);
+        if matches!(vote, PrepareVote::Yes { .. }) {
+            self.yes_handed.insert((tx, sh));
+        }
         match self.coord.record_vote(real, sh, vote) {
             Ok(None) => "voted none".into(),
             Ok(Some(TxPhase::Prepared)) => "voted prepared".into(),
@@ -786,7 +887,7 @@ impl Real {
                 .collect();
             let e: u64 = it.next().map_or(0, |x| x.trim_start_matches('e').parse().unwrap());
             // forged handles live in their own range so that they never collide with real ones
-            let real_h = (1u64 << 60) + h;
+            let real_h = FORGED_BASE + h;
             self.forged.insert(real_h, h);
             if self.txs.get(tx).map_or(true, |t| t.shards.contains(&sh)) {
                 self.forged_participant_yes = true;
@@ -836,7 +937,7 @@ impl Real {
                         for o in ops.iter().flatten() {
                             self.hits.push(format!("op.{}", &o.show()[..1]));
                         }
-                        self.txs.push(TxInfo { real: tx.tx_id, shards: shards.clone(), ops, embs, begun_at: self.clock });
+                        self.txs.push(TxInfo { real: tx.tx_id, shards: shards.clone(), ops, embs, begun_at: self.clock, limit: self.t_units });
                         for sh in shards {
                             self.pool.push(RMsg::Prepare { tx: d, sh });
                         }
@@ -1216,13 +1317,17 @@ impl Real {
                     Some(st) => self.load_state(st),
                     None => {
                         // nothing persisted: `load_from_store` builds a fresh coordinator
-                        self.coord = DistributedTxCoordinator::load_from_store(
+                        let c = DistributedTxCoordinator::load_from_store(
                             "n0",
                             &TensorStore::new(),
                             ConsensusManager::new(ConsensusConfig::default()),
                             self.cfg.clone(),
                         )
                         .expect("load_from_store without persisted state");
+                        self.coord = match &self.wal {
+                            Some((_, p)) => attach_wal(c, p),
+                            None => c,
+                        };
                     },
                 }
                 let after = self.show_pending(&self.coord.to_state().pending);
@@ -1233,6 +1338,92 @@ impl Real {
                     });
                 }
                 format!("restored {}", self.coord.pending_count())
+            },
+            // ---- WAL restart (Wal.lean `EvW.walRestart`): the coordinator process crashes; a new process opens the
+            //      same log, runs recover_from_wal() and recover(), and the glue re-sends every pending decision
+            ["wrestart"] => {
+                let Some(path) = self.wal.as_ref().map(|w| w.1.clone()) else { return "bad-op".into() };
+                // what the crashed process had announced / still held in memory
+                let aborted_fully_yes = (0..self.txs.len()).any(|d| {
+                    self.decided.contains(&(d, false)) && !self.txs[d].shards.is_empty() && self.txs[d].shards.iter().all(|sh| self.yes_handed.contains(&(d, *sh)))
+                });
+                if aborted_fully_yes {
+                    self.hits.push("wal.restart.after_abort_of_tx_with_a_logged_yes_from_every_participant".into());
+                }
+                for t in self.coord.to_state().pending.values() {
+                    self.hits.push(format!("wal.restart.crash_with_{}_entry", format!("{:?}", t.phase).to_lowercase()));
+                }
+                self.coord = attach_wal(mk_coord(&self.cfg), &path);
+                let ws = match self.coord.recover_from_wal() {
+                    Ok(ws) => ws,
+                    Err(e) => return format!("err:{}", format!("{e:?}").chars().take_while(|c| c.is_alphanumeric()).collect::<String>()),
+                };
+                // a restored entry is a `DistributedTransaction::new`: its deadline is counted from the restart, 5000 ms
+                let restored = self.coord.to_state().pending;
+                for t in restored.values() {
+                    let d = self.dense(t.tx_id) as usize;
+                    self.hits.push(format!("wal.restart.restored_{}", format!("{:?}", t.phase).to_lowercase()));
+                    if let Some(info) = self.txs.get_mut(d) {
+                        info.begun_at = self.clock;
+                        info.limit = 0;
+                    }
+                    // (Lean: wal_restart_forgets_abort_decided_transactions) a transaction whose ABORT the coordinator
+                    // announced before the crash comes back, if at all, as Aborting
+                    if d < self.txs.len() && self.decided.contains(&(d, false)) && t.phase != TxPhase::Aborting {
+                        self.viol.push(Violation {
+                            class: "tensor_chain.distributed_tx.coordinator/wal_restart_restores_abort_decided_tx",
+                            what: format!(
+                                "recover_from_wal() restored tx {d} in phase {:?} with votes [{}] although the coordinator announced its ABORT before the crash (decisions {:?}; the log is [{}])",
+                                t.phase,
+                                self.show_pending(&restored).split(',').find(|x| x.starts_with(&format!("{d}/"))).unwrap_or(""),
+                                self.decided,
+                                self.show_wal()
+                            ),
+                        });
+                    }
+                    if d < self.txs.len() && self.decided.contains(&(d, true)) && t.phase == TxPhase::Aborting {
+                        self.viol.push(Violation {
+                            class: "tensor_chain.distributed_tx.coordinator/wal_restart_restores_commit_decided_tx_as_aborting",
+                            what: format!("recover_from_wal() restored tx {d} as Aborting although the coordinator announced its COMMIT before the crash (decisions {:?})", self.decided),
+                        });
+                    }
+                }
+                if restored.is_empty() {
+                    self.hits.push("wal.restart.nothing_restored".into());
+                }
+                let st = self.coord.recover();
+                let dec = self.pending_decisions();
+                for (t, p) in &dec {
+                    let commit = *p == TxPhase::Committing;
+                    let d = *t as usize;
+                    // the decision the restarted coordinator reports against the one announced before the crash
+                    if d < self.txs.len() && self.decided.contains(&(d, !commit)) {
+                        self.viol.push(Violation {
+                            class: if commit {
+                                "tensor_chain.distributed_tx.coordinator/wal_restart_commits_abort_decided_tx"
+                            } else {
+                                "tensor_chain.distributed_tx.coordinator/wal_restart_aborts_commit_decided_tx"
+                            },
+                            what: format!(
+                                "after crash + recover_from_wal() + recover() get_pending_decisions lists (tx {d}, {p:?}) although the coordinator announced the decisions {:?} before the crash (the log is [{}])",
+                                self.decided,
+                                self.show_wal()
+                            ),
+                        });
+                    }
+                    let shards = self.coord.get(self.real_tx(d)).map_or(vec![], |x| x.participants);
+                    self.decide(d, commit);
+                    for sh in shards {
+                        self.pool.push(if commit { RMsg::Commit { tx: d, sh } } else { RMsg::Abort { tx: d, sh } });
+                    }
+                }
+                let ds: Vec<String> = dec.iter().map(|(t, p)| format!("{t}:{}", format!("{p:?}").to_lowercase())).collect();
+                format!(
+                    "wal {} {} {} rec {} {} {} {} {} dec {}",
+                    ws.pending_prepare, ws.pending_commit, ws.pending_abort,
+                    st.pending_prepare, st.pending_commit, st.pending_abort, st.timed_out, st.completed,
+                    if ds.is_empty() { "-".to_string() } else { ds.join(",") }
+                )
             },
             // a DOCTORED pending entry (outside the alphabet): only to compare recover() on every phase
             ["cphase", tx, ph] => {
@@ -1451,6 +1642,10 @@ struct Setup {
     /// complete_*, checkpoints, crash + restore of a current checkpoint, larger clock ticks; no sweep / abort() over a
     /// Committing entry, no force_resolve
     restart: bool,
+    /// the coordinator is WAL-backed (Wal.lean): `wrestart` = crash + recover_from_wal() + recover() is an event, the
+    /// log the coordinator writes is compared with the model's after every event; the generator draws WAL restarts
+    /// inside the alphabet `ReachW` (no timeout sweep / recover() over a timed-out Prepared or Committing entry)
+    wal: bool,
 }
 impl Setup {
     fn init_line(&self) -> String {
@@ -1485,6 +1680,7 @@ fn tag_of(line: &str, ans: &str, real: &Real) -> String {
         "begin" => format!("begin.{}", if a == "tx" { "ok" } else { "too_many" }),
         "ccommit" | "cabort" | "ccomplete_commit" | "ccomplete_abort" | "cforce" => format!("{op}.{}", if a == "ok" { "ok".to_string() } else { b.to_string() }),
         "crecover" => format!("crecover.{}", if res.contains("dec -") { "no_decision" } else { "decisions" }),
+        "wrestart" => format!("wrestart.{}", if res.contains("dec -") { "no_decision" } else { "decisions" }),
         "cvote" => format!("cvote.{}", if a == "voted" { b.to_string() } else { format!("err.{b}") }),
         _ => op.to_string(),
     }
@@ -1509,7 +1705,7 @@ fn collapse_end_refusal(line: &str, model_answer: &str) -> String {
 /// Runs `lines` on a fresh real system and a fresh model; compares every answer and every dump.
 /// `in_quantifier = false`: monitor hits are returned as observations, never as violations.
 fn run_script(m: &mut Model, rep: &mut Report, stream: &str, setup: &Setup, lines: &[String], in_quantifier: bool) -> Outcome {
-    let mut real = Real::new(setup.n, setup.t_units, setup.maxc, setup.wallclock, setup.age_parts);
+    let mut real = Real::for_setup(setup);
     let mut out = Outcome { disagreed: false, violations: vec![], nontrivial: false, tags: vec![], observations: vec![] };
     let init = setup.init_line();
     let a = m.ask(&init);
@@ -1561,9 +1757,10 @@ fn run_script(m: &mut Model, rep: &mut Report, stream: &str, setup: &Setup, line
             } else {
                 if ma.contains("!outside") && !cleanup_noop {
                     out.tags.push("outside_alphabet_event".into());
+                    out.tags.push(format!("outside_alphabet_event.{}", line.split_whitespace().next().unwrap_or("")));
                 }
                 let id = real.dump();
-                let md = m.ask("dump");
+                let md = m.ask(if setup.wal { "dumpw" } else { "dump" });
                 if id != md {
                     rep.disagree(stream, json!({"setup": init, "script": &lines[..=n], "at": format!("dump after `{line}`")}), &id, &md);
                     out.disagreed = true;
@@ -1714,10 +1911,11 @@ fn gen_schedule(r: &mut Rng, setup: &Setup, max_events: usize, rep: &mut Report)
 /// later transaction is prepared on the same shard, after its commit, and in an epilogue after the
 /// last transaction finished.
 fn gen_schedule_mode(r: &mut Rng, setup: &Setup, max_events: usize, rep: &mut Report, late: bool) -> Vec<String> {
-    let mut real = Real::new(setup.n, setup.t_units, setup.maxc, false, setup.age_parts);
+    let mut real = Real::new(setup.n, setup.t_units, setup.maxc, false, setup.age_parts, setup.wal);
     let extended = setup.age_parts;
     let mut lines: Vec<String> = vec![];
-    let nkeys = if late { 1 + r.below(2) } else { 2 + r.below(3) };
+    // wal mode: few keys, so that the shards of one transaction often name the same logical key (cross-shard conflicts)
+    let nkeys = if late || setup.wal { 1 + r.below(2) } else { 2 + r.below(3) };
     // a third of the schedules draw from all ten Transaction kinds
     let mixed = r.chance(1, 3);
     let mut epilogue: Option<u64> = None;
@@ -1737,6 +1935,9 @@ fn gen_schedule_mode(r: &mut Rng, setup: &Setup, max_events: usize, rep: &mut Re
     let mut dropped: Vec<bool> = vec![];
     let mut events = 0;
     let mut ticks = 0u64;
+    // a WAL restart rebuilds the pending entries (new deadlines): a checkpoint written before it is stale even when
+    // it shows the same phases and votes
+    let mut ckpt_since_wal_restart = true;
     while events < max_events {
         delivered.resize(real.pool.len(), 0);
         dropped.resize(real.pool.len(), false);
@@ -1829,6 +2030,30 @@ fn gen_schedule_mode(r: &mut Rng, setup: &Setup, max_events: usize, rep: &mut Re
                 choices.push(("bigtick", if hot { 8 } else { 2 }));
             }
         }
+        if setup.wal && !real.txs.is_empty() {
+            // WAL restarts (Wal.lean `ReachW`): frequent once a transaction was ABORTED although every participant's YES
+            // reached `record_vote` (timeout before the late vote, cross-shard conflict) and while an entry is Prepared /
+            // Committing; timeouts fire early (sweeps while a Preparing entry is past its deadline); no sweep / recover()
+            // while a Prepared entry is past its deadline (`Sys.sparesPrepared`: that abort is not logged)
+            let hot_abort = (0..real.txs.len()).any(|d| {
+                real.decided.contains(&(d, false)) && real.txs[d].shards.iter().all(|sh| real.yes_handed.contains(&(d, *sh)))
+            });
+            let hot = hot_abort || pending.values().any(|t| matches!(t.phase, TxPhase::Prepared | TxPhase::Committing));
+            choices.push(("wrestart", if hot_abort { 14 } else if hot { 8 } else { 3 }));
+            let late_preparing = pending.values().any(|t| t.phase == TxPhase::Preparing && real.past_deadline(real.dense(t.tx_id) as usize));
+            let late_prepared = pending.values().any(|t| t.phase == TxPhase::Prepared && real.past_deadline(real.dense(t.tx_id) as usize));
+            for c in choices.iter_mut() {
+                if c.0 == "sweep" && late_preparing {
+                    c.1 = 14;
+                }
+                if (c.0 == "sweep" || c.0 == "crecover") && late_prepared {
+                    c.1 = 0;
+                }
+                if c.0 == "ccommit" && late_prepared {
+                    c.1 = 40;
+                }
+            }
+        }
         if setup.restart {
             // inside `ReachK`: no timeout sweep while a Committing entry is pending (`Sys.sparesCommitting`),
             // fewer direct commit() calls
@@ -1871,7 +2096,7 @@ fn gen_schedule_mode(r: &mut Rng, setup: &Setup, max_events: usize, rep: &mut Re
                 let base = if disjoint { 10 * (real.txs.len() as u64 + 1) } else { 0 };
                 let ops: Vec<Vec<Op>> = shards.iter().map(|_| gen_ops_kinds(r, nkeys, base, mixed)).collect();
                 // mostly orthogonal or zero embeddings; sometimes two shards share a direction
-                let same = r.chance(1, 5);
+                let same = if setup.wal { r.chance(1, 2) } else { r.chance(1, 5) };
                 let e0 = 1 + r.below(3);
                 let embs: Vec<u64> = (0..shards.len()).map(|i| if same { e0 } else if r.chance(1, 5) { 0 } else { 1 + ((i as u64 + e0) % 3) }).collect();
                 begin_line(&shards, &ops, &embs)
@@ -1920,12 +2145,16 @@ fn gen_schedule_mode(r: &mut Rng, setup: &Setup, max_events: usize, rep: &mut Re
                 ticks += d;
                 format!("tick {d}")
             },
-            "ckpt" => "ckpt".to_string(),
+            "ckpt" => {
+                ckpt_since_wal_restart = true;
+                "ckpt".to_string()
+            },
             "crestore" | "crestart" => {
                 // crash + restart: the checkpoint must be current (every change of the pending map was persisted);
                 // `crestart` writes it first, a bare `crestore` is only drawn when the stored one still is
-                let current = real.saved_state().map(|k| real.show_pending(&k.pending)) == Some(real.show_pending(&pending));
+                let current = ckpt_since_wal_restart && real.saved_state().map(|k| real.show_pending(&k.pending)) == Some(real.show_pending(&pending));
                 if pick == "crestart" && !current {
+                    ckpt_since_wal_restart = true;
                     real.exec("ckpt");
                     lines.push("ckpt".to_string());
                     events += 1;
@@ -1952,6 +2181,10 @@ fn gen_schedule_mode(r: &mut Rng, setup: &Setup, max_events: usize, rep: &mut Re
                 format!("cabort {t}")
             },
             "crecover" => "crecover".to_string(),
+            "wrestart" => {
+                ckpt_since_wal_restart = false;
+                "wrestart".to_string()
+            },
             "ccomplete" => {
                 let dec = real.coord.get_pending_decisions();
                 if !dec.is_empty() && r.chance(4, 5) {
@@ -1992,11 +2225,20 @@ fn gen_schedule_mode(r: &mut Rng, setup: &Setup, max_events: usize, rep: &mut Re
         lines.push(line);
         events += 1;
     }
+    if setup.wal && !real.txs.is_empty() {
+        // epilogue: one more WAL restart once every late vote is in the log, and what it re-sends is delivered
+        let from = real.pool.len();
+        real.exec("wrestart");
+        lines.push("wrestart".to_string());
+        for i in from..real.pool.len() {
+            lines.push(format!("deliver {i}"));
+        }
+    }
     lines
 }
 
 fn directed() -> Vec<(&'static str, Setup, Vec<String>)> {
-    let s2 = || Setup { n: 2, t_units: 2, maxc: 100, lock_to: 1000, wallclock: false, age_parts: false, recovery: false, restart: false };
+    let s2 = || Setup { n: 2, t_units: 2, maxc: 100, lock_to: 1000, wallclock: false, age_parts: false, recovery: false, restart: false, wal: false };
     let l = |v: &[&str]| v.iter().map(|x| x.to_string()).collect::<Vec<String>>();
     let b = |sh: &[usize], ops: &[&str], embs: &[u64]| begin_line(sh, &ops.iter().map(|o| parse_ops(o)).collect::<Vec<_>>(), embs);
     vec![
@@ -2079,7 +2321,7 @@ fn directed_late() -> Vec<(String, Setup, Vec<String>)> {
     for n in [2usize, 3] {
         for cause in ["timeout", "no-vote"] {
             for end in ["resent-abort", "cleanup-stale"] {
-                let setup = Setup { n, t_units: 2, maxc: 100, lock_to: 1000, wallclock: false, age_parts: false, recovery: false, restart: false };
+                let setup = Setup { n, t_units: 2, maxc: 100, lock_to: 1000, wallclock: false, age_parts: false, recovery: false, restart: false, wal: false };
                 let shards: Vec<usize> = (0..n).collect();
                 let embs: Vec<u64> = (0..n as u64).map(|i| 1 + i % 3).collect();
                 let mut v: Vec<String> = (0..n).map(|sh| format!("preload {sh} {} {}", sh + 1, 5 + sh)).collect();
@@ -2118,7 +2360,7 @@ fn directed_late() -> Vec<(String, Setup, Vec<String>)> {
     }
     // T0 finished by its own COMMIT; the zombie's undo image is then T0's committed value
     {
-        let setup = Setup { n: 2, t_units: 2, maxc: 100, lock_to: 1000, wallclock: false, age_parts: false, recovery: false, restart: false };
+        let setup = Setup { n: 2, t_units: 2, maxc: 100, lock_to: 1000, wallclock: false, age_parts: false, recovery: false, restart: false, wal: false };
         let mut v: Vec<String> = vec!["preload 0 1 5".into(), "preload 1 2 6".into()];
         v.push(b(&[0, 1], &["p1=7".to_string(), "p2=8".to_string()], &[1, 2])); // 0,1 = PREPARE(T0)
         for l in ["deliver 0", "deliver 1", "deliver 2", "deliver 3", "ccommit 0", "deliver 4", "deliver 5"] {
@@ -2139,7 +2381,7 @@ fn directed_late() -> Vec<(String, Setup, Vec<String>)> {
 /// holds T0's key on shard 1, a YES tagged "shard 2" reaches the coordinator after shard 0's YES and
 /// BEFORE shard 1's CONFLICT.
 fn directed_forged() -> Vec<(&'static str, Setup, Vec<String>)> {
-    let s3 = || Setup { n: 3, t_units: 2, maxc: 100, lock_to: 1000, wallclock: false, age_parts: false, recovery: false, restart: false };
+    let s3 = || Setup { n: 3, t_units: 2, maxc: 100, lock_to: 1000, wallclock: false, age_parts: false, recovery: false, restart: false, wal: false };
     let l = |v: &[&str]| v.iter().map(|x| x.to_string()).collect::<Vec<String>>();
     let b = |sh: &[usize], ops: &[&str], embs: &[u64]| begin_line(sh, &ops.iter().map(|o| parse_ops(o)).collect::<Vec<_>>(), embs);
     vec![
@@ -2186,7 +2428,7 @@ fn directed_forged() -> Vec<(&'static str, Setup, Vec<String>)> {
 /// changes (Lean: `storage_key_alias_is_refused`).  `/rev`: the two PREPAREs reach shard 0 in the other
 /// order.  `put-row-key-vs-table-update` is the one history that needs the WRITE key in the lock set.
 fn alias_histories() -> Vec<(String, Setup, Vec<String>)> {
-    let s2 = || Setup { n: 2, t_units: 2, maxc: 100, lock_to: 1000, wallclock: false, age_parts: false, recovery: false, restart: false };
+    let s2 = || Setup { n: 2, t_units: 2, maxc: 100, lock_to: 1000, wallclock: false, age_parts: false, recovery: false, restart: false, wal: false };
     let b = |sh: &[usize], ops: &[&str], embs: &[u64]| begin_line(sh, &ops.iter().map(|o| parse_ops(o)).collect::<Vec<_>>(), embs);
     let mk = |a: &str, bb: &str, rev: bool| {
         let mut v = vec![b(&[0, 1], &[a, "p2=8"], &[1, 2]), b(&[0, 1], &[bb, "p3=10"], &[1, 2])];
@@ -2225,7 +2467,7 @@ fn alias_histories() -> Vec<(String, Setup, Vec<String>)> {
 /// passed or not, two transactions in different phases, the ordinary commit path followed by a restart.
 /// Timeout = 2 units.  Pool of a 2-shard tx: 0,1 = PREPARE; 2,3 = the YES votes.
 fn directed_restart() -> Vec<(&'static str, Setup, Vec<String>)> {
-    let s2 = || Setup { n: 2, t_units: 2, maxc: 100, lock_to: 1000, wallclock: false, age_parts: false, recovery: false, restart: true };
+    let s2 = || Setup { n: 2, t_units: 2, maxc: 100, lock_to: 1000, wallclock: false, age_parts: false, recovery: false, restart: true, wal: false };
     let l = |v: &[&str]| v.iter().map(|x| x.to_string()).collect::<Vec<String>>();
     let b = |sh: &[usize], ops: &[&str], embs: &[u64]| begin_line(sh, &ops.iter().map(|o| parse_ops(o)).collect::<Vec<_>>(), embs);
     let t0 = || b(&[0, 1], &["p1=7", "p3=9"], &[1, 2]);
@@ -2298,12 +2540,78 @@ fn directed_restart() -> Vec<(&'static str, Setup, Vec<String>)> {
     ]
 }
 
+/// WAL restarts inside the alphabet `ReachW` (Wal.lean), run before the random streams.  The first is the shortest
+/// history in which "restore only what the LOG says is Prepared" is the only thing between a restart and a changed
+/// decision: shard 0's YES is recorded, the coordinator's timeout fires while shard 1's PREPARE is still on its way
+/// (decision: ABORT, not logged), shard 0 rolls back, the ABORT overtakes the PREPARE on its way to shard 1, shard 1
+/// prepares and its late YES reaches `record_vote` — rejected, but logged first: the log now holds a YES of every
+/// participant for a transaction that is still `Preparing` in the log.  Crash, `recover_from_wal()` + `recover()`:
+/// whatever `get_pending_decisions` says then is delivered.  Its neighbours: the ABORT lost on its way to shard 1, the
+/// cross-shard conflict abort (every vote a YES), the late vote arriving after a first restart, a crash while still
+/// undecided, aborts by a NO vote / by `abort()`, the Prepared transaction that recovery commits (and re-commits on
+/// every later restart), the committed one, three shards, two transactions, duplicate and forged votes in the log.
+/// Timeout = 2 units.  Pool of a 2-shard tx: 0,1 = PREPARE; 2.. = votes in delivery order.
+fn directed_wal() -> Vec<(&'static str, Setup, Vec<String>)> {
+    let sw = || Setup { n: 2, t_units: 2, maxc: 100, lock_to: 1000, wallclock: false, age_parts: false, recovery: false, restart: false, wal: true };
+    let l = |v: &[&str]| v.iter().map(|x| x.to_string()).collect::<Vec<String>>();
+    let b = |sh: &[usize], ops: &[&str], embs: &[u64]| begin_line(sh, &ops.iter().map(|o| parse_ops(o)).collect::<Vec<_>>(), embs);
+    let t0 = || b(&[0, 1], &["p1=7", "p3=9"], &[1, 2]);
+    let mk = |first: String, tail: &[&str]| {
+        let mut v = vec!["preload 0 1 5".to_string(), "preload 1 3 6".to_string(), first];
+        v.extend(l(tail));
+        v
+    };
+    vec![
+        // 2 = shard 0's YES; 3,4 = ABORT (timeout); 5 = shard 1's late YES; a changed tree that restores tx 0: 6,7 = COMMIT
+        ("preparing/timeout-before-late-yes-vote", sw(), mk(t0(), &["deliver 0", "deliver 2", "tick 3", "sweep", "deliver 3", "deliver 4", "deliver 1", "deliver 5",
+            "wrestart", "deliver 6", "deliver 7", "ccomplete_commit 0", "ccommit 0"])),
+        ("preparing/timeout-before-late-yes-vote-abort-lost", sw(), mk(t0(), &["deliver 0", "deliver 2", "tick 3", "sweep", "deliver 3", "deliver 1", "deliver 5",
+            "wrestart", "deliver 7", "deliver 6", "deliver 4"])),
+        // every vote is a YES, the deltas conflict: 4,5 = ABORT (cross_shard); the one for shard 1 is lost in the crash
+        ("preparing/cross-shard-conflict-all-yes", sw(), mk(b(&[0, 1], &["p1=7", "p1=9"], &[1, 1]), &["deliver 0", "deliver 1", "deliver 2", "deliver 3", "deliver 4",
+            "wrestart", "deliver 6", "deliver 7", "ccomplete_commit 0", "deliver 5"])),
+        ("preparing/cross-shard-conflict-all-yes-two-restarts", sw(), mk(b(&[0, 1], &["p1=7", "p1=9"], &[1, 1]), &["deliver 0", "deliver 1", "deliver 2", "deliver 3",
+            "wrestart", "deliver 4", "tick 1", "wrestart", "deliver 7", "deliver 5"])),
+        // the late YES arrives after a first restart has forgotten the aborted transaction; second restart
+        ("preparing/late-yes-vote-after-the-first-restart", sw(), mk(t0(), &["deliver 0", "deliver 2", "tick 3", "sweep", "deliver 3", "wrestart", "deliver 1", "deliver 5",
+            "wrestart", "deliver 6", "deliver 7", "deliver 4"])),
+        // crash while still undecided (nothing was announced): the restart forgets the transaction, late votes are refused
+        ("preparing/crash-while-undecided-then-late-votes", sw(), mk(t0(), &["deliver 0", "deliver 2", "wrestart", "deliver 1", "deliver 3", "ccommit 0", "wrestart", "tick 3", "sweep"])),
+        // aborted by a NO vote / by abort(): nothing to restore
+        ("preparing/no-vote-abort", sw(), mk(t0(), &["deliver 0", "deliver 2", "cvote 0 1 n -", "wrestart", "deliver 3", "deliver 4", "deliver 1", "deliver 5", "wrestart"])),
+        ("preparing/client-abort-then-late-yes-vote", sw(), mk(t0(), &["deliver 0", "deliver 2", "cabort 0", "deliver 1", "deliver 5", "wrestart", "deliver 3", "deliver 4"])),
+        // Prepared in the log: recovery commits it, and every later restart says commit again
+        ("prepared/restart-commits-and-recommits", sw(), mk(t0(), &["deliver 0", "deliver 1", "deliver 2", "deliver 3", "wrestart", "deliver 4", "tick 1", "wrestart", "deliver 7",
+            "ccomplete_abort 0", "ccomplete_commit 0", "tick 5", "wrestart", "deliver 8", "ccomplete_commit 0"])),
+        ("committed/commit-then-restart", sw(), mk(t0(), &["deliver 0", "deliver 1", "deliver 2", "deliver 3", "ccommit 0", "deliver 4", "wrestart", "deliver 5", "tick 3", "wrestart", "sweep"])),
+        // duplicate votes and a forged NO in the name of shard 1 are in the log before shard 1's own YES
+        ("preparing/duplicate-and-forged-votes-in-the-log", sw(), mk(t0(), &["deliver 0", "deliver 2", "deliver 2", "forge 0 1 n", "deliver 3", "deliver 1", "deliver 6", "wrestart",
+            "deliver 4", "deliver 5"])),
+        // three shards: the timeout fires with one YES in, the other two arrive late
+        ("preparing/three-shards-two-late-yes-votes", Setup { n: 3, ..sw() }, {
+            let mut v = vec![b(&[0, 1, 2], &["p1=7", "p3=9", "d5"], &[1, 2, 3])]; //  0,1,2 = PREPARE
+            v.extend(l(&["preload 2 5 4", "deliver 0", "deliver 3", "tick 3", "sweep", "deliver 4", "deliver 1", "deliver 2", "deliver 7", "deliver 8", "wrestart",
+                "deliver 9", "deliver 10", "deliver 11", "deliver 5", "deliver 6"])); // 3 = YES(0); 4,5,6 = ABORT; 7,8 = late YES
+            v
+        }),
+        // T0 times out while Preparing (late YES), T1 is Prepared in time: one restart forgets T0 and commits T1
+        ("two-txs/timed-out-with-late-vote-and-prepared", sw(), {
+            let mut v = vec![t0()];
+            v.extend(l(&["deliver 0", "deliver 2", "tick 3"]));
+            v.push(b(&[0, 1], &["p2=8", "p4=1"], &[1, 2])); //        3,4 = PREPARE(T1)
+            v.extend(l(&["deliver 3", "deliver 4", "deliver 5", "deliver 6", "sweep", "deliver 7", "deliver 1", "deliver 9", "wrestart", "deliver 10", "deliver 11",
+                "ccomplete_commit 1", "deliver 8", "deliver 12", "deliver 13"])); // 7,8 = ABORT(T0); 9 = late YES(T0); 10,11 = COMMIT(T1)
+            v
+        }),
+    ]
+}
+
 /// `recover()` on a pending entry in EVERY phase — also the ones no reachable state shows it (`Committed`, `Aborted`,
 /// `Prepared` with a NO vote or with votes missing) — before and after the deadline: the entry's phase is doctored
 /// (`cphase`, outside the alphabet) and the statistics, the phases and `get_pending_decisions` are compared with
 /// `recoverArm` of Recovery.lean.  Correspondence only.
 fn restart_arms() -> Vec<(String, Setup, Vec<String>)> {
-    let s2 = || Setup { n: 2, t_units: 2, maxc: 100, lock_to: 1000, wallclock: false, age_parts: false, recovery: false, restart: true };
+    let s2 = || Setup { n: 2, t_units: 2, maxc: 100, lock_to: 1000, wallclock: false, age_parts: false, recovery: false, restart: true, wal: false };
     let b = |sh: &[usize], ops: &[&str], embs: &[u64]| begin_line(sh, &ops.iter().map(|o| parse_ops(o)).collect::<Vec<_>>(), embs);
     let mut out = vec![];
     for votes in ["all-yes", "one-yes", "a-no"] {
@@ -2334,7 +2642,7 @@ fn witnesses() -> Vec<(&'static str, Setup, Vec<String>)> {
     vec![
         (
             "cleanup_stale_splits_outcome",
-            Setup { n: 2, t_units: 2, maxc: 100, lock_to: 1000, wallclock: false, age_parts: false, recovery: false, restart: false },
+            Setup { n: 2, t_units: 2, maxc: 100, lock_to: 1000, wallclock: false, age_parts: false, recovery: false, restart: false, wal: false },
             {
                 let mut v = vec![];
                 v.push(b(&[0, 1], &["p1=7", "p3=9"], &[1, 2]));
@@ -2344,7 +2652,7 @@ fn witnesses() -> Vec<(&'static str, Setup, Vec<String>)> {
         ),
         (
             "lock_expiry_abort_changes_shard",
-            Setup { n: 1, t_units: 2, maxc: 100, lock_to: 0, wallclock: false, age_parts: true, recovery: false, restart: false },
+            Setup { n: 1, t_units: 2, maxc: 100, lock_to: 0, wallclock: false, age_parts: true, recovery: false, restart: false, wal: false },
             {
                 let mut v = l(&["preload 0 1 5"]);
                 v.push(b(&[0], &["p1=7"], &[1]));
@@ -2480,12 +2788,15 @@ const EXPECTED: &[&str] = &[
     "restart.recover.prepared_past_deadline", "restart.recover.committing_in_time", "restart.recover.committing_past_deadline",
     "restart.recover.aborting_in_time", "restart.recover.aborting_past_deadline", "restart.recover.committed_in_time",
     "restart.recover.committed_past_deadline", "restart.recover.aborted_in_time", "restart.recover.aborted_past_deadline",
+    "wrestart.decisions", "wrestart.no_decision", "wal.restart.nothing_restored", "wal.restart.restored_prepared",
+    "wal.restart.after_abort_of_tx_with_a_logged_yes_from_every_participant", "wal.restart.crash_with_preparing_entry",
+    "wal.restart.crash_with_prepared_entry", "wal.restart.crash_with_committing_entry", "wal.restart.crash_with_aborting_entry",
 ];
 
 /// Does the script, run on fresh REAL objects only, trip the monitor `class`?
 fn real_violation(setup: &Setup, lines: &[String], class: &str) -> Option<String> {
     std::panic::catch_unwind(std::panic::AssertUnwindSafe(|| {
-        let mut real = Real::new(setup.n, setup.t_units, setup.maxc, setup.wallclock, setup.age_parts);
+        let mut real = Real::for_setup(setup);
         for l in lines {
             real.exec(l);
             if let Some(v) = real.viol.iter().find(|v| v.class == class) {
@@ -2502,7 +2813,7 @@ fn real_violates(setup: &Setup, lines: &[String], class: &str) -> bool {
 /// number of lines up to and including the event at which the monitor `class` first fires on fresh REAL objects
 fn violating_prefix_len(setup: &Setup, lines: &[String], class: &str) -> Option<usize> {
     std::panic::catch_unwind(std::panic::AssertUnwindSafe(|| {
-        let mut real = Real::new(setup.n, setup.t_units, setup.maxc, setup.wallclock, setup.age_parts);
+        let mut real = Real::for_setup(setup);
         for (i, l) in lines.iter().enumerate() {
             real.exec(l);
             if real.viol.iter().any(|v| v.class == class) {
@@ -2564,8 +2875,9 @@ fn main() {
                 if let (Some(init), Some(script)) = (fi["setup"].as_str(), fi["script"].as_array()) {
                     let w: Vec<u64> = init.split_whitespace().skip(1).filter_map(|x| x.parse().ok()).collect();
                     if w.len() == 4 {
-                        let setup = Setup { n: w[0] as usize, t_units: w[1], maxc: w[2] as usize, lock_to: w[3], wallclock: false, age_parts: false, recovery: false, restart: false };
                         let lines: Vec<String> = script.iter().filter_map(|x| x.as_str().map(String::from)).collect();
+                        // a script with a WAL restart ran on a WAL-backed coordinator
+                        let setup = Setup { n: w[0] as usize, t_units: w[1], maxc: w[2] as usize, lock_to: w[3], wallclock: false, age_parts: false, recovery: false, restart: false, wal: lines.iter().any(|l| l == "wrestart") };
                         let o = run_script(&mut m, &mut rep, "replay", &setup, &lines, true);
                         record(&mut rep, &mut m, "replay", &setup, &lines, &o);
                     }
@@ -2594,6 +2906,20 @@ fn main() {
         }
     }
 
+
+    // ---- WAL restarts inside the alphabet `ReachW` (crash + recover_from_wal() + recover() on a WAL-backed coordinator)
+    // (`--skip-directed-wal`: mutation-testing aid, to see what the random stream finds on its own)
+    let skip_wal = args.extra.iter().any(|a| a == "--skip-directed-wal");
+    for (name, setup, lines) in directed_wal().into_iter().filter(|_| !skip_wal) {
+        let o = run_script(&mut m, &mut rep, "directed-wal", &setup, &lines, true);
+        if o.tags.iter().any(|t| t == "outside_alphabet_event") {
+            rep.note(&format!("directed-wal history {name} left the alphabet (model flagged an event !outside)"));
+        }
+        record(&mut rep, &mut m, "directed-wal", &setup, &lines, &o);
+        if name == "preparing/timeout-before-late-yes-vote" {
+            rep.sample(json!({"stream": "directed-wal", "name": name, "setup": setup.init_line(), "script": lines}));
+        }
+    }
 
     // ---- coordinator restarts inside the alphabet (recover() at any clock value, checkpoint / restore cycles)
     // (`--skip-directed-restart`: mutation-testing aid, to see what the random stream finds on its own)
@@ -2660,6 +2986,7 @@ fn main() {
             age_parts: false,
             recovery: false,
             restart: false,
+            wal: false,
         };
         let max_events = 20 + r.below(41) as usize;
         let lines = gen_schedule(&mut r, &setup, max_events, &mut rep);
@@ -2678,7 +3005,7 @@ fn main() {
     let mut r = root.fork("late-duplicates");
     let mut violating = 0;
     for i in 0..if args.thorough { 3000 } else { 250 } {
-        let setup = Setup { n: 2 + r.below(2) as usize, t_units: 2, maxc: 100, lock_to: 1000, wallclock: false, age_parts: false, recovery: false, restart: false };
+        let setup = Setup { n: 2 + r.below(2) as usize, t_units: 2, maxc: 100, lock_to: 1000, wallclock: false, age_parts: false, recovery: false, restart: false, wal: false };
         let max_events = 25 + r.below(36) as usize;
         let lines = gen_schedule_mode(&mut r, &setup, max_events, &mut rep, true);
         let o = run_script(&mut m, &mut rep, "late-duplicates", &setup, &lines, true);
@@ -2695,7 +3022,7 @@ fn main() {
     // ---- coordinator-level record_vote with forged votes (No votes, unknown shards, unknown txs)
     let mut r = root.fork("coord-unit");
     for _ in 0..if args.thorough { 1500 } else { 200 } {
-        let setup = Setup { n: 0, t_units: 2, maxc: 100, lock_to: 1000, wallclock: false, age_parts: false, recovery: false, restart: false };
+        let setup = Setup { n: 0, t_units: 2, maxc: 100, lock_to: 1000, wallclock: false, age_parts: false, recovery: false, restart: false, wal: false };
         let mut lines = vec![];
         let ntx = 1 + r.below(2) as usize;
         let mut shards_of = vec![];
@@ -2742,7 +3069,7 @@ fn main() {
     // ---- untouched wall clock: 1 ms timeout, every tick sleeps 3 ms, sweeps follow ticks
     let mut r = root.fork("wallclock");
     for _ in 0..if args.thorough { 60 } else { 12 } {
-        let setup = Setup { n: 2, t_units: 0, maxc: 100, lock_to: 1000, wallclock: true, age_parts: false, recovery: false, restart: false };
+        let setup = Setup { n: 2, t_units: 0, maxc: 100, lock_to: 1000, wallclock: true, age_parts: false, recovery: false, restart: false, wal: false };
         let mut lines = vec![];
         let ops = vec![gen_ops(&mut r, 3), gen_ops(&mut r, 3)];
         lines.push(begin_line(&[0, 1], &ops, &[1, 2]));
@@ -2769,7 +3096,7 @@ fn main() {
     let mut r = root.fork("extended");
     let mut ext_hits: BTreeMap<String, u64> = BTreeMap::new();
     for _ in 0..if args.thorough { 600 } else { 60 } {
-        let setup = Setup { n: 1 + r.below(2) as usize, t_units: 2, maxc: 100, lock_to: 0, wallclock: false, age_parts: true, recovery: false, restart: false };
+        let setup = Setup { n: 1 + r.below(2) as usize, t_units: 2, maxc: 100, lock_to: 0, wallclock: false, age_parts: true, recovery: false, restart: false, wal: false };
         let lines = gen_schedule(&mut r, &setup, 30, &mut rep);
         let o = run_script(&mut m, &mut rep, "outside-quantifier", &setup, &lines, false);
         rep.case("outside-quantifier", None);
@@ -2803,7 +3130,7 @@ fn main() {
     // ---- the coordinator's recovery API (recover / get_pending_decisions / complete_* / force_resolve):
     //      correspondence with Recovery.lean; outside the alphabet, monitor hits are observations
     {
-        let sr = || Setup { n: 2, t_units: 2, maxc: 100, lock_to: 1000, wallclock: false, age_parts: false, recovery: true, restart: false };
+        let sr = || Setup { n: 2, t_units: 2, maxc: 100, lock_to: 1000, wallclock: false, age_parts: false, recovery: true, restart: false, wal: false };
         let l = |v: &[&str]| v.iter().map(|x| x.to_string()).collect::<Vec<String>>();
         let b = |sh: &[usize], ops: &[&str], embs: &[u64]| begin_line(sh, &ops.iter().map(|o| parse_ops(o)).collect::<Vec<_>>(), embs);
         let both_yes = ["deliver 0", "deliver 1", "deliver 2", "deliver 3"];
@@ -2883,7 +3210,7 @@ fn main() {
         let mut r = root.fork("restart-schedules");
         let mut violating = 0;
         for i in 0..if args.thorough { 2400 } else { 140 } {
-            let setup = Setup { n: 2 + r.below(2) as usize, t_units: 2, maxc: 100, lock_to: 1000, wallclock: false, age_parts: false, recovery: false, restart: true };
+            let setup = Setup { n: 2 + r.below(2) as usize, t_units: 2, maxc: 100, lock_to: 1000, wallclock: false, age_parts: false, recovery: false, restart: true, wal: false };
             let max_events = 20 + r.below(31) as usize;
             let lines = gen_schedule(&mut r, &setup, max_events, &mut rep);
             let o = run_script(&mut m, &mut rep, "restart-schedules", &setup, &lines, true);
@@ -2911,7 +3238,7 @@ fn main() {
             let _ = name;
         }
         // the stale-checkpoint witness (Lean: stale_checkpoint_restore_changes_decision_outside_quantifier_witness)
-        let setup = Setup { n: 2, t_units: 2, maxc: 100, lock_to: 1000, wallclock: false, age_parts: false, recovery: false, restart: true };
+        let setup = Setup { n: 2, t_units: 2, maxc: 100, lock_to: 1000, wallclock: false, age_parts: false, recovery: false, restart: true, wal: false };
         let mut lines = vec![begin_line(&[0, 1], &[parse_ops("p1=7"), parse_ops("p3=9")], &[1, 2])];
         for l in ["deliver 0", "deliver 1", "deliver 2", "deliver 3", "ckpt", "ccommit 0", "deliver 4", "tick 3", "crestore", "crecover", "deliver 7"] {
             lines.push(l.to_string());
@@ -2934,15 +3261,72 @@ fn main() {
         }
     }
 
+    // ---- random schedules on a WAL-backed coordinator with WAL restarts, inside the alphabet `ReachW` of Wal.lean
+    {
+        let mut r = root.fork("wal-restart-schedules");
+        let mut violating = 0;
+        // (`--skip-wal-stream`: timing aid)
+        let n_wal = if args.extra.iter().any(|a| a == "--skip-wal-stream") { 0 } else if args.thorough { 2000 } else { 110 };
+        for i in 0..n_wal {
+            let setup = Setup { n: 2 + r.below(2) as usize, t_units: 2, maxc: 100, lock_to: 1000, wallclock: false, age_parts: false, recovery: false, restart: true, wal: true };
+            let max_events = 20 + r.below(31) as usize;
+            let lines = gen_schedule(&mut r, &setup, max_events, &mut rep);
+            let o = run_script(&mut m, &mut rep, "wal-restart-schedules", &setup, &lines, true);
+            if o.tags.iter().any(|t| t == "outside_alphabet_event") {
+                rep.hit("wal.schedule_left_alphabet");
+            }
+            record(&mut rep, &mut m, "wal-restart-schedules", &setup, &lines, &o);
+            if i < 2 {
+                rep.sample(json!({"stream": "wal-restart-schedules", "setup": setup.init_line(), "script": lines}));
+            }
+            violating += usize::from(!o.violations.is_empty());
+            if violating >= 6 {
+                break;
+            }
+        }
+        // On the code AS IT IS the timeout abort of a PREPARED entry (cleanup_timeouts, recover()) is not logged either,
+        // and the log says Prepared: a WAL restart commits it (Lean: timeout_abort_of_prepared_entry_is_not_logged_outside_quantifier_witness).
+        // Coordinator crashes are not in C03's quantifier; the model tags the restart `!outside`: an observation.
+        let setup = Setup { n: 2, t_units: 2, maxc: 100, lock_to: 1000, wallclock: false, age_parts: false, recovery: false, restart: false, wal: true };
+        for (name, tail) in [
+            ("timeout_sweep_of_prepared_entry_then_wal_restart_commits", vec!["tick 3", "sweep", "deliver 4", "wrestart", "deliver 7"]),
+            ("recover_of_timed_out_prepared_entry_then_wal_restart_commits", vec!["tick 3", "crecover", "deliver 4", "wrestart", "deliver 7"]),
+        ] {
+            let mut lines = vec![begin_line(&[0, 1], &[parse_ops("p1=7"), parse_ops("p3=9")], &[1, 2])];
+            for l in ["deliver 0", "deliver 1", "deliver 2", "deliver 3"].iter().chain(tail.iter()) {
+                lines.push(l.to_string());
+            }
+            let o = run_script(&mut m, &mut rep, "wal-observations", &setup, &lines, true);
+            rep.case("wal-observations", None);
+            for t in &o.tags {
+                if t.starts_with("wal.") || t.starts_with("wrestart") {
+                    rep.hit(t);
+                }
+            }
+            rep.observe(json!({
+                "witness": name, "setup": setup.init_line(), "script": lines,
+                "model_agrees": !o.disagreed, "reproduced_on_real_objects": !o.observations.is_empty(), "monitor_hits": o.observations,
+                "note": "a transaction that reached Prepared (logged) is aborted by the coordinator's timeout (cleanup_timeouts / recover()) without a WAL record; after crash + recover_from_wal() + recover() the restarted coordinator announces COMMIT for it: shard 0 rolled back, shard 1 applies. Coordinator crashes are outside C03's quantifier; proposed/C03-log-timeout-abort.diff; Lean PropsWal.lean"
+            }));
+            if !o.violations.is_empty() {
+                rep.note(&format!("the WAL observation {name} reported violations BEFORE its restart left the alphabet"));
+                record(&mut rep, &mut m, "wal-observations", &setup, &lines, &o);
+            }
+            if o.observations.is_empty() || o.disagreed {
+                rep.note(&format!("WAL observation {name} did NOT reproduce on the real objects (behaviour changed?)"));
+            }
+        }
+    }
+
     // ---- duplicate prepare + duplicate commit after another tx committed the same key: re-applies
     //      the first tx's writes (not excluded by C03's statement; reported as an observation)
     {
-        let setup = Setup { n: 1, t_units: 2, maxc: 100, lock_to: 1000, wallclock: false, age_parts: false, recovery: false, restart: false };
+        let setup = Setup { n: 1, t_units: 2, maxc: 100, lock_to: 1000, wallclock: false, age_parts: false, recovery: false, restart: false, wal: false };
         let mut lines = vec![begin_line(&[0], &[parse_ops("p1=7")], &[1]), begin_line(&[0], &[parse_ops("p1=9")], &[1])];
         for l in ["deliver 0", "deliver 2", "ccommit 0", "deliver 3", "deliver 1", "deliver 4", "ccommit 1", "deliver 5", "deliver 0", "deliver 3"] {
             lines.push(l.to_string());
         }
-        let mut real = Real::new(1, 2, 100, false, false);
+        let mut real = Real::new(1, 2, 100, false, false, false);
         for l in &lines {
             real.exec(l);
         }
@@ -2960,6 +3344,6 @@ fn main() {
         let _ = (k, v);
     }
     rep.note("coordinator timeouts are produced on a virtual clock through the public persistence API (to_state -> bitcode -> load_from_store with shifted started_at); a small stream uses the untouched wall clock");
-    rep.note("WAL logging and the coordinator-local handle_prepare lock manager are not exercised (the latter is asserted empty after every event); TensorStore::put never fails, so the rollback branch of TxParticipant::commit is unreachable");
+    rep.note("the streams directed-wal / wal-restart-schedules / wal-observations run a WAL-backed coordinator (TxWal on a tmpfs file; every append succeeds) and compare the log it writes with the model's after every event; the other streams run without a WAL. The coordinator-local handle_prepare lock manager is not exercised (asserted empty after every event); TensorStore::put never fails, so the rollback branch of TxParticipant::commit is unreachable");
     rep.write(&args.out);
 }
